@@ -29,7 +29,7 @@ def main():
         st = cgen.stmts(d, 2)
         print("stmts depth", d, len(st))
     for s in cgen.stmts(2, 2):
-        for style in ("kr", "allman", "one"):
+        for style in ("kr", "allman", "one", "ml", "ml2"):
             jobs.append(("C", "stmt:%s" % (style,), cgen.program(cgen.render(s, style, 1))))
     for lang in ("C", "CPP"):
         for n, src in cgen.decl_units(lang):
